@@ -616,15 +616,30 @@ package syncer
 //@     invariant only_index_removals_queued: bCpPuts == 0 && (bLen == 0 || (bFirst == "zrem" && bLast == "zrem"))
 
 //   stateReset  1 once this start has discarded the stored frontier and journal records
+//@ func RedisOutput.resetBisyncFrontierState(self, cli, checkpointName, slots) (err)
+//@   trusted abstract bookkeeping store: DEL of the journal records, their indexes and the frontier hash
+//@   modifies stateReset, savedFrontierSeq, savedFrontierOk
+//@   ensures done: err == nil ==> stateReset == 1
+
+//@ func RedisOutput.discardBisyncNumbering
+//@   arith int
+//@   properties C14
+//@   ghost var stateReset mathint = 0
+//@   modifies stateReset, savedFrontierSeq, savedFrontierOk
+//@   ensures whatever_was_found_stored_is_discarded: result == nil && (snapshot != nil || len(records) > 0) ==> stateReset == 1
+
 //@ func RedisOutput.bisyncStartPoint
 //@   arith int
 //@   properties C14
 //@   replay syncer_bisyncStartPoint syncer_staleFrontierState
 //@   ghost var stateReset mathint = 0
-//@   modifies heap, savedFrontierSeq, savedFrontierOk, bLen, bFirst, bLast, bCpPuts, bCp, bCpPos, tCpHigh, cpArmed, startSeq, startPinned, curDb, cpDb, rootReads, rootOff, rootRun, stateReset
+//@   modifies heap, savedFrontierSeq, savedFrontierOk, bLen, bFirst, bLast, bCpPuts, bCp, bCpPos, tCpHigh, cpArmed, startSeq, startPinned, curDb, cpDb, rootReads, rootOff, rootRun, stateReset, examined
 //@   set stateReset = 0 at call GetCheckpoint
-//@   set stateReset = ite(result == nil, 1, 0) after call resetBisyncFrontierState optional
-//@   ensures a_restarted_numbering_never_meets_records_of_the_old_one [local]: result3 == nil && result2 && result1 == 0 && (snapshot != nil || len(records) > 0) ==> stateReset == 1
+//   examined  1 once this start has loaded the stored frontier and journal records
+//@   ghost var examined mathint = 0
+//@   set examined = 0 at call GetCheckpoint
+//@   set examined = ite(result1 == nil, 1, 0) after call LoadBisyncCommitRecords
+//@   ensures a_restarted_numbering_never_meets_records_of_the_old_one [local]: examined == 1 && result3 == nil && result2 && result1 == 0 && (snapshot != nil || len(records) > 0) ==> stateReset == 1
 
 // ---- bidirectional sync: what is suppressed as the tool's own traffic (C13) ---------------
 // Only the reserved bookkeeping namespace decides: a command is dropped as bookkeeping only
@@ -1075,3 +1090,25 @@ func SpecRdbBuffered(r *memoryRdb) int64 { panic("abstract spec function") }
 //@   requires the_source_continues_the_stored_position [C06]: refusedBySource == 0
 //@ func Output.DiscardStartPoint(self, ctx, runId) (err)
 //@   trusted abstract output: withdraws the stored resume position, then adopts runId
+
+// ---- frame of logging and of the frontier-miss memo (used by the C14 start-point contract) ------
+//@ func log.Logger.Infof(self, format, args)
+//@   trusted frame: logging does not change program state
+//@   modifies nothing
+//@ func log.Logger.Warnf(self, format, args)
+//@   trusted frame: logging does not change program state
+//@   modifies nothing
+//@ func RedisOutput.clearBisyncFrontierMiss
+//@   arith int
+//@   properties C14
+//@   requires nonnil: ro != nil
+//@   modifies ro.bisyncMissRunID
+//@ func RedisOutput.markBisyncFrontierMiss
+//@   arith int
+//@   properties C14
+//@   requires nonnil: ro != nil
+//@   modifies ro.bisyncMissRunID
+//@ func RedisOutput.bisyncRootCheckpointNewer
+//@   arith int
+//@   properties C14
+//@   modifies nothing
